@@ -1,14 +1,18 @@
 import SosModel.Drv.Merkle
+import SosModel.Drv.Log
 open Sos
 
 /-- State threaded through a session (stateful domains add fields here). -/
 structure DrvState where
-  dummy : Unit := ()
+  log : Sos.Drv.Log.St := {}
 
 def stepLine (st : DrvState) (line : String) : DrvState × String :=
   let toks := (line.trimAscii.toString.splitOn " ").filter (· ≠ "")
   match toks with
   | "merkle" :: rest => (st, Sos.Drv.Merkle.step rest)
+  | "log" :: rest =>
+    let (l, o) := Sos.Drv.Log.step st.log rest
+    ({ st with log := l }, o)
   | _ => (st, "bad-op")
 
 partial def loop (h : IO.FS.Stream) (out : IO.FS.Stream) (st : DrvState) : IO Unit := do
